@@ -122,6 +122,9 @@ fn domain(p: P) -> Vec<V> {
         P::ListU64 => u64_lists(),
         P::ListStr => str_lists(),
         P::ElemU64 => ints([0, 1, 3, 5, u64::MAX as i128]),
+        P::ListLen => ints([0, 1, 2, 4, 5]),
+        P::ListLen3 => ints([0, 1, 2]),
+        P::UnusedInt => ints([0]),
     }
 }
 
